@@ -414,8 +414,8 @@ def runBlocking (line : String) : String :=
       if api = .async ∨ cs.isEmpty ∨ cs.length > 6 ∨
           ¬ cs.all (fun c => c = .plainThread ∨ c = .tokioMultiThreadNoDriversBlockOn ∨ c = .tokioCurrentThread) then "bad-op"
       else
-        let toks := cs.map fun c => if pathPanics (blockingPath api c) c then "panic" else "send=ok,flush=true"
-        s!"{" ".intercalate toks}\tctxseq={cs.length}"
+        if cs.any (fun c => pathPanics (blockingPath api c) c) then s!"panic\tctxseq={cs.length}"
+        else s!"{" ".intercalate (cs.map fun _ => "send=ok,flush=true")}\tctxseq={cs.length}"
     | _, _ => "bad-op"
   | some (.list [.atom "blseq", api, ctx]) =>
     match api? api, ctx? ctx with
